@@ -139,3 +139,19 @@ def prog_unitary():
         hermitian
 
     return "N", "U", "Ud"
+
+
+def prog_twoargs():
+    with "A":
+        start = 0
+        f("H") / 2 + "A @ A"
+
+    with "B":
+        start = 0
+        h2("A", "H" + "A".adj / 2) + h2("H" - "A @ A", "A") / 3
+
+    with "A @ A":
+        pass
+
+    return "A", "B"
+
